@@ -12,6 +12,7 @@ func TestC17(t *testing.T) {
 	r := newRun(t, "C17", "exploration")
 	defer r.Finish(t)
 	r.Rule = "v1 priority discipline; generated scripts interleave AddInput of a new priority, replacement of a registered channel, RemoveInput and re-adding with a fresh channel (one priority per channel object, control calls issued from their own goroutines, one at a time) with writes, drains without release, release groups and sleeps; H is chosen so that every subset of the priorities that can be registered is non-fatal. Oracle: every item is tagged with the priority its channel was registered under; once RemoveInput / a replacing AddInput has returned, the number of items taken out of the old channel (completed writes minus len) is frozen at a quiescent point and no later delivery may exceed it; per channel, deliveries are exactly the first taken items in order; held <= H throughout (C01's oracle) also while items of a removed priority are in flight; after closing what is left, GracefulStop returns and the never-early conditions of C07 hold; the divider is only called with configured priorities (C15's contract monitor); a real-clock block repeats add / replace / remove from a control goroutine racing with H handler goroutines and live producers (tags, exactly-once, capacity, and no delivery from a channel beyond what had been taken when its removal returned, +1 for a send in progress). non-trivial = scenario with >= 2 control calls of which >= 1 removal or replacement happened while items of that priority were in flight or buffered; distinct by scenario fingerprint"
+	r.Rule += " | also: removal of unregistered / drained / last inputs; AddInput of the same channel, of the original channel object after a removal, of a nil channel; control calls after GracefulStop() was requested; a priority whose share appears when another one is removed"
 	r.Assumptions = []string{prioAssume, "control calls block while the scheduler waits for feedback: the harness keeps releasing held items one by one until the pending call has returned"}
 	r.Floor = 20
 	if replayPrio(t, r) {
@@ -63,6 +64,7 @@ func TestC19(t *testing.T) {
 	defer r.Finish(t)
 	r.CensusEvery = 1
 	r.Rule = "every discipline of both versions is driven to termination in every way: input closure (v2 priority, v2 simple, join, unite, limit), GracefulStop (v1 priority, v1 Simple), Stop / cancel / Stop-after-GracefulStop at generated points (v1 priority, v1 Simple, v1 join), error termination after an injected divider fault; fake clock: after termination the stepper lets everything run to a blocked state, lets 1us virtual pass and takes a census of the bubble - any goroutine whose 'created by' line names a function of the library is a leak (harness goroutines that merely are inside Release() are not counted); a synctest report of blocked goroutines left behind is cross-checked. Real clock (priority variants with H handler goroutines, join, unite, limit): after every batch a process-wide census with a 10s grace period. non-trivial = a scenario that terminated and was censused; the evidence tabulates censuses per (discipline, way of termination); distinct by scenario fingerprint"
+	r.Rule += " | also: Err() never read after a divider fault; census right at the completion of a stop (Handle may need 3us to return); goroutines of the discipline found blocked at the instant any Stop() / GracefulStop() call returns; census at a closure that comes while items are unreleased"
 	r.Assumptions = []string{prioAssume, "runtime.Stack lists every goroutine with its creator"}
 	r.Floor = 30
 	if replayPrio(t, r) {
